@@ -26,7 +26,7 @@ class _Pipeline:
         return self + other
 
     def __rsub__(self, other) -> Self:
-        return (-self) + other
+        return self._rsub(other)
 
     def __rmul__(self, other) -> Self:
         return self * other
@@ -79,6 +79,9 @@ class ImageProvider(_Pipeline, Generic[_R]):
                 f"{self.__name__} / {other.__name__}"
             )
         return self.__class__(lambda scale: self(scale) / other)
+
+    def _rsub(self, other) -> ImageProvider:
+        return self.__class__(lambda scale: other - self(scale))
 
     def _rtruediv(self, other) -> ImageProvider:
         return self.__class__(lambda scale: other / self(scale))
@@ -223,6 +226,11 @@ class ImageConverter(_Pipeline):
                 lambda x, scale: self(x, scale) / other(scale)
             ).with_name(f"({self.__name__} / {other.__name__})")
         return self.__class__(lambda x, scale: self(x, scale) / other)
+
+    def _rsub(self, other) -> ImageConverter:
+        if isinstance(other, ImageProvider):
+            return self.__class__(lambda x, scale: other(scale) - self(x, scale))
+        return self.__class__(lambda x, scale: other - self(x, scale))
 
     def _rtruediv(self, other) -> ImageConverter:
         if isinstance(other, ImageProvider):
